@@ -113,8 +113,14 @@ func scenC09(r *Run) {
 				it.Err = true
 			case 8:
 				kind = "impostor-actor-id-differs-slightly"
-				act["actor"] = X + "/"
-				f.Serve(X+"/", Doc{"id": X + "/", "type": "Person", "name": "lookalike", "preferredUsername": "u"})
+				look := X + "/"
+				if t.Chance(1, 2) {
+					// same host, same path up to the case of one letter: a different resource
+					look = strings.Replace(X, "/a/u", "/a/U", 1)
+					kind = "impostor-actor-id-differs-in-path-case"
+				}
+				act["actor"] = look
+				f.Serve(look, Doc{"id": look, "type": "Person", "name": "lookalike", "preferredUsername": "u"})
 				it.Err = true
 			case 9:
 				kind = "failing-fetch"
